@@ -313,6 +313,8 @@ pub const IN_CLONE: TrCfg = TrCfg {
 
 // consumer A is in the middle of clone(); its sibling B on the same stream and the producer run there
 tr!(c04_bc_shared_inclone, hk_c04_bc_shared_inclone, BcT, 2, 1, [2, 1, 1], IN_CLONE);
+// (the same scenario run by C05's check: the overwritten value is *dropped* while it is being cloned)
+tr!(c05_bc_shared_inclone, hk_c05_bc_shared_inclone, BcT, 2, 1, [2, 1, 1], IN_CLONE);
 // two streams: A (stream 0) is in the middle of clone(); stream 1 and the producer run there
 tr!(c04_bc_streams_inclone, hk_c04_bc_streams_inclone, BcT, 3, 1, [2, 1, 1], IN_CLONE);
 // sole consumer viewing in place; the producer tries to wrap the ring meanwhile
